@@ -12,7 +12,6 @@ def main():
     if not shutil.which("java"):
         print("java missing", file=sys.stderr)
         return 2
-    shutil.rmtree(SCRATCH_ROOT, ignore_errors=True)
     SCRATCH_ROOT.mkdir(exist_ok=True)
     specs = sorted(SPECS.glob("*.tla"))
     bad = []
